@@ -3,7 +3,7 @@
     raises in the worker: a parsing error inside the chunk) and [rfail = Some k] (the reader raises when
     it is about to read chunk k: a truncated compressed stream, mates missing in one paired file). *)
 From Coq Require Import ZArith List Bool Arith.
-From CV Require Import Model.Runner Proofs.RunnerSafety Proofs.RunnerTermination.
+From CV Require Import Model.Runner Proofs.RunnerSafety Proofs.RunnerTermination Proofs.RunnerLive.
 Import ListNotations.
 Open Scope nat_scope.
 
@@ -21,3 +21,28 @@ Theorem C12_schedules_bounded : forall (A O S : Type) (f : A -> O) (g : A -> S) 
   length ls + measure A O S chunks W s' <= measure A O S chunks W s.
 Proof. exact schedules_are_bounded. Qed.
 Print Assumptions C12_schedules_bounded.
+
+(** status 0 only for well-formed input: a run that finishes without failure has met no fault -- the
+    format was detected, the reader never raised, no chunk made a worker raise -- and has handed out
+    all chunks *)
+Theorem C12_fail_visible : forall (A O S : Type) (f : A -> O) (g : A -> S) szero sadd chunks W bad rfail ffail,
+  0 < W -> forall s, reachable A O S f g szero sadd chunks W bad rfail ffail s -> finished_ok s = true ->
+  ffail = false /\ next s = length chunks /\ (forall k, rfail = Some k -> length chunks < k) /\ (forall i, i < length chunks -> bad i = false).
+Proof. exact finished_means_no_fault. Qed.
+Print Assumptions C12_fail_visible.
+
+(** ... and then the output contains every record of it *)
+Theorem C12_complete_when_ok : forall (A O S : Type) (f : A -> O) (g : A -> S) szero sadd chunks W bad rfail ffail s,
+  0 < W -> reachable A O S f g szero sadd chunks W bad rfail ffail s -> finished_ok s = true ->
+  written s = map f chunks.
+Proof. exact finished_complete. Qed.
+Print Assumptions C12_complete_when_ok.
+
+(** never hangs: with every fault pattern, a reachable state that is not terminal (neither finished
+    nor failed) has an enabled step; together with C12_schedules_bounded every maximal schedule ends
+    in a terminal state *)
+Theorem C12_no_deadlock : forall (A O S : Type) (f : A -> O) (g : A -> S) szero sadd chunks W bad rfail ffail s,
+  0 < W -> reachable A O S f g szero sadd chunks W bad rfail ffail s -> terminal s = false ->
+  exists l s', step A O S f g sadd chunks W bad rfail ffail s l = Some s'.
+Proof. exact no_deadlock. Qed.
+Print Assumptions C12_no_deadlock.
